@@ -74,14 +74,18 @@ pub fn step(w: &mut World, e: &Value) -> Value {
 		"receive" => w.receive(&wn, &sl, e["dest"].as_str().unwrap_or(""), None),
 		"finalize" => {
 			let tamper = e["tamper"].as_str().unwrap_or("");
-			if tamper == "bogus" {
+			if tamper == "bogus" || tamper == "bogus_expired" {
 				// the initiator's own S1 slate relabelled as a reply
+				// (bogus_expired: and claiming a cut-off height that has long passed)
 				let s = w.pick(&sl, "S1", 0).map(|mut s| {
 					s.state = crate::libwallet::SlateState::Standard2;
+					if tamper == "bogus_expired" {
+						s.ttl_cutoff_height = 1;
+					}
 					s
 				});
 				let mut r = w.finalize(&wn, &sl, "S2", 0, s, e["foreign"].as_bool().unwrap_or(true));
-				r["tamper"] = json!("bogus");
+				r["tamper"] = json!(tamper);
 				r
 			} else {
 				w.finalize(
